@@ -57,6 +57,18 @@ g_frame!(tdes_eee3_frame, TdesEee3, 8, generic::always, stubs: [(crate::utils::f
 //@ harness name=tdes_eee2_frame prop=C15,C20 tier=quick bits=2112 stub=1 desc="encrypt/decrypt on an arbitrary TdesEee2 state: total, instance unchanged (f uninterpreted)"
 g_frame!(tdes_eee2_frame, TdesEee2, 8, generic::always, stubs: [(crate::utils::f, stub_xf)]);
 
+// C15: mixed-direction history on one instance and construction history (see generic.rs)
+//@ harness name=des_mixed prop=C15,C20 tier=quick bits=1152 est=300 desc="Des: on one arbitrary-state instance the history enc(x); dec(x); dec(y); enc(y) returns for dec(x) and enc(y) what a pristine instance with the same state returns; instance bytes unchanged; nothing abstracted"
+g_mixed!(des_mixed, Des, 8, generic::always);
+//@ harness name=tdes_ede3_mixed prop=C15,C20 tier=quick bits=3200 stub=1 desc="TdesEde3: mixed-direction history enc(x); dec(x); dec(y); enc(y) agrees with a pristine instance; instance bytes unchanged (f uninterpreted)"
+g_mixed!(tdes_ede3_mixed, TdesEde3, 8, generic::always, stubs: [(crate::utils::f, stub_xf)]);
+//@ harness name=tdes_eee2_mixed prop=C15,C20 tier=quick bits=2176 stub=1 desc="TdesEee2: mixed-direction history agrees with a pristine instance; instance bytes unchanged (f uninterpreted)"
+g_mixed!(tdes_eee2_mixed, TdesEee2, 8, generic::always, stubs: [(crate::utils::f, stub_xf)]);
+//@ harness name=des_ctor_history prop=C15 tier=quick bits=128 est=200 desc="Des: new(k2) in a fresh process, then new(k1), then new(k2) again gives the same subkeys as the first time, all keys k1, k2"
+g_ctor_history!(des_ctor_history, Des, 8, generic::none);
+//@ harness name=tdes_ede3_ctor_history prop=C15 tier=thorough bits=384 est=900 mem=24 desc="TdesEde3: construction history new(k2); new(k1); new(k2) gives the same state, all keys"
+g_ctor_history!(tdes_ede3_ctor_history, TdesEde3, 24, generic::none);
+
 // C04: every block count n = 0, 1, 2 (enumerated), all block contents and all states symbolic; one harness per direction.
 //@ harness name=des_blocks_enc prop=C04,C20 tier=quick bits=1152 stub=1 desc="Des encrypt: multi-block in place / multi-block b2b (n = 0,1,2) / single b2b equal per-block in-place calls; separate input unchanged; blocks >= n and mismatched-length outputs untouched; arbitrary state (f uninterpreted)"
 g_blocks1!(des_blocks_enc, Des, 8, 2, generic::always, enc, stubs: [(crate::utils::f, stub_xf)]);
